@@ -447,7 +447,7 @@ def run_td7(sc):
             max_episodes_when_checkpointing=sc["maxEps"],
             steps_before_checkpointing=sc["thresh"],
             reset_weight=sc["rw2"] / 2,
-            batch_size=4,
+            batch_size=sc.get("batch", 4),
             learning_starts=sc["ls"],
             replay_buffer=RecLAP(256),
             actor_target=actor_target,
@@ -498,6 +498,7 @@ def trace_of(sc, log):
     step = sc["gs"]
     ep = None
     last_ckpt = None
+    stored = 0  # transitions in the replay buffer (add_sample calls)
     tail = None  # the Release event being filled after an episode end
 
     def new_ep():
@@ -507,6 +508,8 @@ def trace_of(sc, log):
         k = e["k"]
         if k == "ckpt_created":
             last_ckpt = e["ckpt"]
+        elif k == "add":
+            stored += 1
         elif k == "reset":
             ep, tail = new_ep(), None
         elif k == "random_action":
@@ -527,7 +530,7 @@ def trace_of(sc, log):
                     "state": {"eps": 0, "ts": 0, "maxEps": 0, "minRet": 0, "bestMin": 0},
                     "logged": 0,
                 }
-                tail = {"ev": "Release", "samples": 0, "prios": 0, "copies": 0, "ckpt_eq": False, "ckpt_changed": False, "assessed_policy": ["-", "-"]}
+                tail = {"ev": "Release", "stored": stored + 1, "samples": 0, "prios": 0, "copies": 0, "ckpt_eq": False, "ckpt_changed": False, "assessed_policy": ["-", "-"]}
                 events += [ev, tail]
         elif k == "sample":
             if tail is not None:
@@ -620,8 +623,9 @@ def scenarios(rep):
     quick = rep.tier == "quick"
     total = sum(e[0] for e in FIXED)
     out = [
-        dict(name="fixed-aligned", episodes=FIXED, ls=6, gs=0, maxEps=2, thresh=6, rw2=1, total=total, seed=1),
-        dict(name="fixed-straddle", episodes=FIXED, ls=5, gs=0, maxEps=2, thresh=6, rw2=1, total=total, seed=1),
+        # batch_size 16: the first three releases happen with 9, 11, 13 stored transitions (< batch_size), the later ones with >= 17
+        dict(name="fixed-aligned", episodes=FIXED, ls=6, gs=0, maxEps=2, thresh=6, rw2=1, total=total, seed=1, batch=16),
+        dict(name="fixed-straddle", episodes=FIXED, ls=5, gs=0, maxEps=2, thresh=6, rw2=1, total=total, seed=1, batch=4),
     ]
     rng = random.Random(rep.seed)
     for i in range(1 if quick else 8):
@@ -644,6 +648,7 @@ def scenarios(rep):
             name=f"random-{i}", episodes=eps, ls=ls, gs=gs, maxEps=rng.randint(1, 3), thresh=rng.randint(0, 12), rw2=rng.choice([1, 2]),
             # sometimes stop in the middle of an episode / of a window
             total=gs + (steps if rng.random() < 0.6 else steps - rng.randint(1, 3)), seed=rng.randint(0, 10**6),
+            batch=rng.choice([4, 16, 32]),
         ))
     return out
 
@@ -732,6 +737,8 @@ def trace_vacuity(scs, traces):
         "window continues": any(e["assessed"] and e["got"]["train"] == 0 for e in eps),
         "long window": any(e["state"]["maxEps"] > 1 for e in eps),
         "iterations": sum(r["samples"] for r in rel) >= 10,
+        "release with fewer stored transitions than batch_size": any(r["samples"] > 0 and r["stored"] < scs[0].get("batch", 4) for r in rel),
+        "release with at least batch_size stored transitions": any(r["samples"] > 0 and r["stored"] >= scs[0].get("batch", 4) for r in rel),
         "copy": any(r["copies"] == 1 for r in rel),
         "end": tr["events"][-1]["ev"] == "End",
     }
@@ -776,7 +783,7 @@ def part_b(rep):
         log = run_td7(sc)
         traces.append(trace_of(sc, log))
     rep.extra["td7_runs"] = [
-        {"name": sc["name"], "ls": sc["ls"], "gs": sc["gs"], "maxEps": sc["maxEps"], "thresh": sc["thresh"], "rw2": sc["rw2"], "steps": sc["total"] - sc["gs"],
+        {"name": sc["name"], "ls": sc["ls"], "gs": sc["gs"], "maxEps": sc["maxEps"], "thresh": sc["thresh"], "rw2": sc["rw2"], "batch": sc.get("batch", 4), "steps": sc["total"] - sc["gs"],
          "episodes": sum(1 for e in tr["events"] if e["ev"] == "Episode"), "iterations": sum(e.get("samples", 0) for e in tr["events"] if e["ev"] == "Release")}
         for sc, tr in zip(scs, traces)
     ]
